@@ -7,6 +7,7 @@ import BleveModel.Drv.C09
 import BleveModel.Drv.C02
 import BleveModel.Drv.C01
 import BleveModel.Drv.C13
+import BleveModel.Drv.C17
 import BleveModel.Drv.C19
 import BleveModel.Drv.C18
 import BleveModel.Drv.C20
@@ -40,6 +41,7 @@ def main (args : List String) : IO UInt32 := do
   | ["c07"] => loop stdin stdout Bleve.Drv.C07.step; stdout.flush; return 0
   | ["c10"] => loop stdin stdout Bleve.Drv.C10.step; stdout.flush; return 0
   | ["echo"] => loop stdin stdout (fun toks => match toks with | "echo" :: rest => joinWith " " rest | _ => "bad-op"); stdout.flush; return 0
+  | ["c17"] => loop stdin stdout Bleve.Drv.C17.step; stdout.flush; return 0
   | ["c19"] => loop stdin stdout Bleve.Drv.C19.step; stdout.flush; return 0
   | ["c18"] => loop stdin stdout Bleve.Drv.C18.step; stdout.flush; return 0
   | ["c20"] => loop stdin stdout Bleve.Drv.C20.step; stdout.flush; return 0
